@@ -31,7 +31,11 @@ def parseCtor (variant dflt cleanup cb mincap : String) : Option Cache.Ctor := d
   | "default" => some (.newDefault d i c)
   | "opts" => some (.newOpts (some d) (some i) c (if m == 0 then none else some m))
   | "bare" => some (.newOpts none (some 0) none none)
-  | _ => none
+  | _ =>
+    -- "over<base>": New(WithDefaultExpiration(base), WithCleanupInterval, …, WithDefaultExpiration(dflt))
+    if variant.startsWith "over" then
+      (variant.drop 4).toInt?.map fun b => .newOptsOver b d (some i) c (if m == 0 then none else some m)
+    else none
 
 /-- does this op address a key whose entry is physically present but expired (expired-uncleaned)? -/
 def touchesDead (s : Cache.St String Val) (t : List String) : Bool :=
